@@ -3,6 +3,8 @@ import EaselModel.Msafile.A2mLemmas
 import EaselModel.Msafile.ClustalLemmas
 import EaselModel.Msafile.PsiblastLemmas
 import EaselModel.Msafile.PhylipLemmas
+import EaselModel.Msafile.SelexLemmas
+import EaselModel.Msafile.StockholmLemmas
 import EaselModel.Msafile.AbcTables
 /-! # C01 — alignment input is total: property theorems (statements + glue; lemmas live in `Msafile/*Lemmas.lean`)
 
@@ -12,7 +14,7 @@ format-or-alphabet undetermined); never a crash, out-of-object access, UB, leak 
 returned with success is well formed.
 
 PARTIAL at this revision: the theorems below cover the formats whose reader is modelled (`MODELLED` in props/c01.py:
-aligned FASTA, A2M, Clustal, Clustal-like, PSI-BLAST, PHYLIP interleaved and sequential), declared format, text mode and digital mode with a supplied alphabet, for EVERY byte string (no size
+aligned FASTA, A2M, Clustal, Clustal-like, PSI-BLAST, PHYLIP interleaved and sequential, SELEX, Stockholm and Pfam), declared format, text mode and digital mode with a supplied alphabet, for EVERY byte string (no size
 bound).  The other formats, autodetection and alphabet guessing are covered by the harness monitors only (support, not
 proof); leaks are outside the model. `Good r` is: `ok m ⇒ m.wellFormed`, `eof`, `eformat msg ⇒ msg ≠ ""`; `fault`
 (out-of-bounds access of the bounds-checked model) and `exc` (ESL_EXCEPTION) are NOT good. -/
@@ -371,6 +373,192 @@ example : (phylipRead false (phylipCfg (some abcDna)) (splitLines (str "1 4\nx  
 example : (phylipRead false (phylipCfg (some abcDna)) (splitLines (str "1 4\nx         AC9GT\n"))).1 matches .eformat _ := by decide +kernel
 example : (phylipRead false (phylipCfg none) (splitLines (str "1 4\nx         AC9GT\n"))).1 matches .ok _ := by decide +kernel
 example : phylipCfg (some abcAmino) ∈ phylipConfigs := by simp [phylipConfigs]
+
+
+/-! # ===================== SELEX section (`esl_msafile_selex_Read`) =====================
+
+Model `Msafile/Selex.lean`, lemmas `Msafile/SelexLemmas.lean`.  Beyond `Cfg.valid` the SELEX reader needs the finite table
+condition `Cfg.selexOk`: its input map IGNOREs no character (otherwise `selex_append_block` throws "unexpected
+inconsistency appending a sequence") and the gap code used for padding is a symbol of the alphabet. -/
+
+theorem selex_cfg_text_valid : (selexCfg none).valid := ⟨by decide +kernel, by decide +kernel⟩
+theorem selex_cfg_amino_valid : (selexCfg (some abcAmino)).valid := ⟨by decide +kernel, by decide +kernel⟩
+theorem selex_cfg_dna_valid : (selexCfg (some abcDna)).valid := ⟨by decide +kernel, by decide +kernel⟩
+theorem selex_cfg_rna_valid : (selexCfg (some abcRna)).valid := ⟨by decide +kernel, by decide +kernel⟩
+
+theorem selex_cfg_text_ok : (selexCfg none).selexOk = true := by decide +kernel
+theorem selex_cfg_amino_ok : (selexCfg (some abcAmino)).selexOk = true := by decide +kernel
+theorem selex_cfg_dna_ok : (selexCfg (some abcDna)).selexOk = true := by decide +kernel
+theorem selex_cfg_rna_ok : (selexCfg (some abcRna)).selexOk = true := by decide +kernel
+
+/-- the four configurations of the SELEX reader -/
+def selexConfigs : List Cfg := [selexCfg none, selexCfg (some abcAmino), selexCfg (some abcDna), selexCfg (some abcRna)]
+
+theorem selexConfigs_valid : ∀ cfg ∈ selexConfigs, cfg.valid ∧ cfg.selexOk = true := by
+  intro cfg h
+  simp only [selexConfigs, List.mem_cons, List.mem_nil_iff, or_false] at h
+  rcases h with h | h | h | h <;> subst h
+  · exact ⟨selex_cfg_text_valid, selex_cfg_text_ok⟩
+  · exact ⟨selex_cfg_amino_valid, selex_cfg_amino_ok⟩
+  · exact ⟨selex_cfg_dna_valid, selex_cfg_dna_ok⟩
+  · exact ⟨selex_cfg_rna_valid, selex_cfg_rna_ok⟩
+
+/-- **SELEX, every byte string, text and digital**: one `esl_msafile_Read` returns ok with a well-formed alignment, eof, or
+    eformat with a non-empty message. -/
+theorem selex_total (cfg : Cfg) (hc : cfg ∈ selexConfigs) (src : Bytes) : Good (selexRead cfg (splitLines src)).1 :=
+  selexRead_good cfg (selexConfigs_valid cfg hc).1 (selexConfigs_valid cfg hc).2 (splitLines src)
+
+/-- … the model never makes an out-of-bounds access (block arrays, `b->ltype[idx]`, `msa->sqname[seqi]`, `msa->ss[seqi-1]`,
+    the reallocated rows) or a NULL dereference, and never raises an internal exception -/
+theorem selex_no_fault (cfg : Cfg) (hc : cfg ∈ selexConfigs) (src : Bytes) :
+    (selexRead cfg (splitLines src)).1 ≠ .fault ∧ (selexRead cfg (splitLines src)).1 ≠ .exc := by
+  have h := selex_total cfg hc src
+  constructor <;> intro hr <;> rw [hr] at h <;> exact h
+
+/-- … a format error always carries a message -/
+theorem selex_eformat_has_message (cfg : Cfg) (hc : cfg ∈ selexConfigs) (src : Bytes) (msg : String)
+    (h : (selexRead cfg (splitLines src)).1 = .eformat msg) : msg ≠ "" := by
+  have hg := selex_total cfg hc src
+  rw [h] at hg; exact hg
+
+/-- … an alignment returned with eslOK is well formed: ≥ 1 sequence, every row of length `alen` (text rows NUL-free,
+    digital rows sentinel-delimited with codes `< Kp`), default weights, and `rf`, `mm`, `ss_cons`, every `ss[i]` and
+    `sa[i]` that is present of length `alen` -/
+theorem selex_ok_wellformed (cfg : Cfg) (hc : cfg ∈ selexConfigs) (src : Bytes) (m : Msa)
+    (h : (selexRead cfg (splitLines src)).1 = .ok m) : m.wellFormed = true := by
+  have hg := selex_total cfg hc src
+  rw [h] at hg
+  exact hg
+
+/-- … and nothing is left unread: the second `esl_msafile_Read` after a success returns eslEOF (a SELEX file holds one alignment) -/
+theorem selex_read_all_total (cfg : Cfg) (hc : cfg ∈ selexConfigs) (src : Bytes) :
+    Good (selexRead cfg (splitLines src)).1 ∧
+    (∀ m, (selexRead cfg (splitLines src)).1 = .ok m →
+      (selexRead cfg (splitLines src)).2 = [] ∧ (selexRead cfg (selexRead cfg (splitLines src)).2).1 = .eof) :=
+  ⟨selex_total cfg hc src, fun m h => selexRead_ok_consumes cfg _ m h⟩
+
+/-- `esl_strmapcat_noalloc` / `esl_abc_dsqcat_noalloc` with the SELEX input map store exactly one symbol per input byte
+    (so `alen == msa->alen + nleft + ntext` and the exception behind it is unreachable) -/
+theorem selex_cat_length (cfg : Cfg) (hc : cfg ∈ selexConfigs) (src : Bytes) :
+    (mapLoop cfg.inmap src .ok []).2.length = src.length := by
+  have hv := selexConfigs_valid cfg hc
+  have hs := hv.2
+  unfold Cfg.selexOk at hs
+  rw [Bool.and_eq_true] at hs
+  have := mapLoop_length cfg.inmap hs.1 src .ok [] (mapLoop_noExc cfg.inmap hv.1.noExc src .ok [] (by simp))
+  simpa using this
+
+/-! ## non-vacuity -/
+
+/-- "#=RF xx.\n#=MM ..m\ns1 AC-\n#=SS <.>\ns2  CG\n\ns1 A\ns2 CC\n" : two blocks, ragged edges, annotation -/
+def exSelex : Bytes :=
+  [35,61,82,70,32,120,120,46,10, 35,61,77,77,32,46,46,109,10, 115,49,32,65,67,45,10, 35,61,83,83,32,60,46,62,10,
+   115,50,32,32,67,71,10, 10, 35,61,82,70,32,120,10, 35,61,77,77,32,46,10, 115,49,32,65,10, 35,61,83,83,32,60,10, 115,50,32,67,67,10]
+/-- "#=SS <>\ns1 AC\n": `#=SS` before any sequence -/
+def exSelexBadSS : Bytes := [35,61,83,83,32,60,62,10, 115,49,32,65,67,10]
+/-- "s1 AC\n\ns1 AC\ns2 AC\n": a later block with more lines -/
+def exSelexMore : Bytes := [115,49,32,65,67,10, 10, 115,49,32,65,67,10, 115,50,32,65,67,10]
+
+example : (selexRead (selexCfg none) (splitLines exSelex)).1 matches .ok _ := by decide +kernel
+example : (selexRead (selexCfg (some abcDna)) (splitLines exSelex)).1 matches .ok _ := by decide +kernel
+example : (selexRead (selexCfg none) (splitLines exSelexBadSS)).1 matches .eformat _ := by decide +kernel
+example : (selexRead (selexCfg none) (splitLines exSelexMore)).1 matches .eformat _ := by decide +kernel
+example : (selexRead (selexCfg none) (splitLines [12, 10])).1 matches .eformat _ := by decide +kernel      -- "\f\n": a block without any text
+example : (selexRead (selexCfg none) (splitLines [35, 32, 99, 10, 10])).1 matches .eof := by decide +kernel   -- only a comment
+example : selexCfg (some abcAmino) ∈ selexConfigs := by simp [selexConfigs]
+
+
+/-! ## ===================== STOCKHOLM / PFAM =====================
+
+`stockholmRead` (Msafile/Stockholm.lean) is `esl_msafile_stockholm_Read` with `ESL_STOCKHOLM_PARSEDATA`, the six line
+parsers, `stockholm_get_seqidx/gc_tagidx/gr_tagidx` and the `esl_msa.c` helpers they call, statement by statement; every
+data-dependent array access is bounds-checked against the allocation the C code computes (`sqalloc`, `salloc`, `balloc`,
+`ngc`, `ngr`, `alloc_ncomment`, `alloc_ngf`), failure = `.fault`; `ESL_EXCEPTION` = `.exc`.  Pfam is the same reader.
+The theorems hold for EVERY list of lines, hence every byte string, text mode and the three digital alphabets.
+The reader configuration must satisfy `Cfg.valid` AND ignore no input character (`InMap.noIgnore`): with an ignored
+character `stockholm_parse_sq` raises its "implementation assumes that no symbols are ignored in inmap" exception.
+
+The proof rests on the block invariant `StoInv` (Msafile/StockholmInv.lean): with `lens` = all the lengths the parse data
+keeps (`sqlen[]`, the five consensus lengths, `sslen/salen/pplen[]`, `ogc_len[]`, `ogr_len[][]`), every length is 0,
+`alen` or `alen + alen_b` (`CountInv.tri`); in the first block the number of non-zero lengths is `bi`; in later blocks it
+is `npb`, and the number of lengths still equal to `alen` is `npb - bi` — so that at the end of a block with `bi == npb`
+nothing is left at `alen`.  The guards `sslen[i] != alen`, `ogc_len[t] != alen`, `ogr_len[t][i] != alen` are what makes a
+line move a length from `alen` to `alen + alen_b` (`CountInv.step` needs `LensRel alen (alen+n) …`): weakened to `>`,
+a tag renamed between blocks would take a 0 to `n` and `tri` fails. -/
+
+theorem sto_cfg_text_valid : (stockholmCfg none).valid := ⟨by decide +kernel, by decide +kernel⟩
+theorem sto_cfg_amino_valid : (stockholmCfg (some abcAmino)).valid := ⟨by decide +kernel, by decide +kernel⟩
+theorem sto_cfg_dna_valid : (stockholmCfg (some abcDna)).valid := ⟨by decide +kernel, by decide +kernel⟩
+theorem sto_cfg_rna_valid : (stockholmCfg (some abcRna)).valid := ⟨by decide +kernel, by decide +kernel⟩
+theorem sto_cfg_text_noIgnore : (stockholmCfg none).inmap.noIgnore = true := by decide +kernel
+theorem sto_cfg_amino_noIgnore : (stockholmCfg (some abcAmino)).inmap.noIgnore = true := by decide +kernel
+theorem sto_cfg_dna_noIgnore : (stockholmCfg (some abcDna)).inmap.noIgnore = true := by decide +kernel
+theorem sto_cfg_rna_noIgnore : (stockholmCfg (some abcRna)).inmap.noIgnore = true := by decide +kernel
+
+/-- the four configurations of the Stockholm / Pfam reader -/
+def stoConfigs : List Cfg :=
+  [stockholmCfg none, stockholmCfg (some abcAmino), stockholmCfg (some abcDna), stockholmCfg (some abcRna)]
+
+theorem stoConfigs_valid : ∀ cfg ∈ stoConfigs, cfg.valid ∧ cfg.inmap.noIgnore = true := by
+  intro cfg h
+  simp only [stoConfigs, List.mem_cons, List.mem_nil_iff, or_false] at h
+  rcases h with h | h | h | h <;> subst h
+  · exact ⟨sto_cfg_text_valid, sto_cfg_text_noIgnore⟩
+  · exact ⟨sto_cfg_amino_valid, sto_cfg_amino_noIgnore⟩
+  · exact ⟨sto_cfg_dna_valid, sto_cfg_dna_noIgnore⟩
+  · exact ⟨sto_cfg_rna_valid, sto_cfg_rna_noIgnore⟩
+
+/-- **Stockholm / Pfam, every byte string, text and digital**: one `esl_msafile_Read` returns ok with a well-formed
+    alignment, eof, or eformat with a non-empty message -/
+theorem stockholm_total (cfg : Cfg) (hc : cfg ∈ stoConfigs) (src : Bytes) : Good (stockholmRead cfg (splitLines src)).1 :=
+  stockholmRead_good cfg (stoConfigs_valid cfg hc).1 (stoConfigs_valid cfg hc).2 (splitLines src)
+
+/-- … and so does every later `esl_msafile_Read` on the same input (a Stockholm file may hold several alignments):
+    whatever lines are left, the next read is again total -/
+theorem stockholm_total_rest (cfg : Cfg) (hc : cfg ∈ stoConfigs) (lines : List Bytes) :
+    Good (stockholmRead cfg lines).1 ∧ Good (stockholmRead cfg (stockholmRead cfg lines).2).1 :=
+  ⟨stockholmRead_good cfg (stoConfigs_valid cfg hc).1 (stoConfigs_valid cfg hc).2 lines,
+   stockholmRead_good cfg (stoConfigs_valid cfg hc).1 (stoConfigs_valid cfg hc).2 _⟩
+
+/-- … the model never makes an out-of-bounds access / NULL dereference and never raises an internal exception -/
+theorem stockholm_no_fault (cfg : Cfg) (hc : cfg ∈ stoConfigs) (src : Bytes) :
+    (stockholmRead cfg (splitLines src)).1 ≠ .fault ∧ (stockholmRead cfg (splitLines src)).1 ≠ .exc :=
+  let h := stockholmRead_nofault cfg (stoConfigs_valid cfg hc).1 (stoConfigs_valid cfg hc).2 (splitLines src)
+  ⟨h.1, h.2.1⟩
+
+/-- … a format error always carries a message -/
+theorem stockholm_eformat_has_message (cfg : Cfg) (hc : cfg ∈ stoConfigs) (src : Bytes) (msg : String)
+    (h : (stockholmRead cfg (splitLines src)).1 = .eformat msg) : msg ≠ "" :=
+  (stockholmRead_nofault cfg (stoConfigs_valid cfg hc).1 (stoConfigs_valid cfg hc).2 (splitLines src)).2.2 msg h
+
+/-- … an alignment returned with eslOK is well formed: ≥ 1 sequence, every row of length `alen`, weights all set or all
+    default, and EVERY per-column / per-residue annotation (SS_cons SA_cons PP_cons RF MM, SS SA PP, every unparsed
+    #=GC tag, every unparsed #=GR tag of every sequence) absent or of length exactly `alen` -/
+theorem stockholm_ok_wellformed (cfg : Cfg) (hc : cfg ∈ stoConfigs) (src : Bytes) (m : Msa)
+    (h : (stockholmRead cfg (splitLines src)).1 = .ok m) : m.wellFormed = true := by
+  have hg := stockholm_total cfg hc src
+  rw [h] at hg
+  exact hg
+
+/-! non-vacuity: the Stockholm theorems speak about each kind of outcome -/
+
+/-- "# STOCKHOLM 1.0\n#=GS a WT 2\na AC\n#=GR a XX ..\n#=GC YY xy\n\na GT\n#=GR a XX <>\n#=GC YY zz\n//\n" -/
+def exSto : Bytes :=
+  [35,32,83,84,79,67,75,72,79,76,77,32,49,46,48,10, 35,61,71,83,32,97,32,87,84,32,50,10, 97,32,65,67,10,
+   35,61,71,82,32,97,32,88,88,32,46,46,10, 35,61,71,67,32,89,89,32,120,121,10, 10, 97,32,71,84,10,
+   35,61,71,82,32,97,32,88,88,32,60,62,10, 35,61,71,67,32,89,89,32,122,122,10, 47,47,10]
+/-- the same with the #=GC tag of the second block renamed (YY -> ZZ): rejected, thanks to `ogc_len[tagidx] != alen` -/
+def exStoRenamed : Bytes :=
+  [35,32,83,84,79,67,75,72,79,76,77,32,49,46,48,10, 97,32,65,67,10, 35,61,71,67,32,89,89,32,120,121,10, 10, 97,32,71,84,10,
+   35,61,71,67,32,90,90,32,122,122,10, 47,47,10]
+
+example : (stockholmRead (stockholmCfg none) (splitLines exSto)).1 matches .ok _ := by decide +kernel
+example : (stockholmRead (stockholmCfg (some abcDna)) (splitLines exSto)).1 matches .ok _ := by decide +kernel
+example : (stockholmRead (stockholmCfg none) (splitLines exStoRenamed)).1 matches .eformat _ := by decide +kernel
+example : (stockholmRead (stockholmCfg none) (splitLines [])).1 matches .eof := by decide +kernel
+example : (stockholmRead (stockholmCfg none) (splitLines [35,32,83,84,79,67,75,72,79,76,77,32,49,46,48,10,97,32,65,10])).1 matches .eformat _ := by
+  decide +kernel     -- no "//"
+example : stockholmCfg (some abcRna) ∈ stoConfigs := by simp [stoConfigs]
 
 
 end EaselModel.Props.C01
